@@ -2,6 +2,9 @@ import Mathlib.Data.Matrix.Mul
 import Mathlib.Data.Fintype.BigOperators
 import Mathlib.LinearAlgebra.Matrix.Block
 import FastorModel.Proofs.QRInv
+import FastorModel.Proofs.QRPivot
+import FastorModel.Proofs.QRFamily
+import Mathlib.Tactic.NormNum
 /-
   C13 — QR by modified Gram–Schmidt (unary_qr_op.h, unary_piv_op.h).
 
@@ -111,5 +114,137 @@ theorem detQR_sq (sqrt : K → K) (n : Nat) (A Qin : Mat K) (hs : SqrtExact sqrt
       = ((toMatrix n (qr sqrt n A Qin).Q).det * (toMatrix n (qr sqrt n A Qin).Q).det)
           * (detQR sqrt n A Qin * detQR sqrt n A Qin) := by rw [hQ, one_mul]
     _ = _ := by ring
+
+
+/-! ### pivoted strategies (`QRCompType::MGSRPiv`)
+
+  As implemented, the pivot is the partial-pivoting ROW permutation of `pivot_inplace` (arg-max of `|A(i,j)|`,
+  `i ≥ j`, on the unreduced columns), applied to the rows before the factorisation: `Q * R = P * A`. -/
+
+/-- the product `Q * R` as a tensor -/
+def prodMat (n : Nat) (Q R : Mat K) : Mat K := Mat.ofFn (fun k j => ∑ p ∈ range n, Q k p * R p j)
+
+/-- **C13, pivot returned as an index vector**: `P` is a permutation of `0..n-1`, `R` is upper triangular with exact
+    zeros, `Q * R` is `A` with row `P(k)` moved to row `k`, `Q` has orthonormal columns, and the library's
+    `reconstruct(Q*R, P)` gives back `A`. -/
+theorem qr_pivV_correct (sqrt : K → K) (gt : K → K → Bool) (abs : K → K) (n : Nat) (A Qin : Mat K)
+    (hs : SqrtExact sqrt n n (applyPivot n A (pivotPerm gt abs n A)) Qin) :
+    IsPermBelow n (qrPivV sqrt gt abs n A Qin).2
+    ∧ (∀ i j, j < i → (qrPivV sqrt gt abs n A Qin).1.R i j = 0)
+    ∧ (∀ k j, k < n → j < n →
+        ∑ p ∈ range n, (qrPivV sqrt gt abs n A Qin).1.Q k p * (qrPivV sqrt gt abs n A Qin).1.R p j
+          = A ((qrPivV sqrt gt abs n A Qin).2 k) j)
+    ∧ (∀ p q, p < n → q < n →
+        ∑ k ∈ range n, (qrPivV sqrt gt abs n A Qin).1.Q k p * (qrPivV sqrt gt abs n A Qin).1.Q k q = if p = q then 1 else 0)
+    ∧ (∀ k j, k < n → j < n →
+        (reconstruct n (prodMat n (qrPivV sqrt gt abs n A Qin).1.Q (qrPivV sqrt gt abs n A Qin).1.R)
+          (qrPivV sqrt gt abs n A Qin).2) k j = A k j) := by
+  have hperm := pivotPerm_isPerm gt abs n A
+  have hrec : ∀ k j, k < n → j < n →
+      ∑ p ∈ range n, (qrPivV sqrt gt abs n A Qin).1.Q k p * (qrPivV sqrt gt abs n A Qin).1.R p j
+        = A ((qrPivV sqrt gt abs n A Qin).2 k) j := by
+    intro k j hk hj
+    have h := qr_reconstructs sqrt n n _ Qin hs k j hk hj
+    rw [applyPivot_get, if_pos hk] at h
+    exact h
+  refine ⟨hperm, fun i j h => qr_R_lower_zero sqrt n n _ Qin i j h, hrec,
+    fun p q hp hq => qr_orthonormal sqrt n n _ Qin hs p q hp hq, ?_⟩
+  intro k j hk hj
+  exact reconstruct_of_rows n A _ _ hperm k j hk (fun i hi => hrec i j hi hj)
+
+/-- **C13, pivot returned as a 0/1 matrix**: `P(k,c) = 1` exactly at `c = perm(k)`, the permutation is read back
+    correctly by `std::find`, and the factors satisfy the same identities. -/
+theorem qr_pivM_correct [DecidableEq K] (sqrt : K → K) (gt : K → K → Bool) (abs : K → K) (n : Nat) (A Qin : Mat K)
+    (hs : SqrtExact sqrt n n
+      (applyPivot n A (findOne n (permMatrix n (pivotPerm gt abs n A) : Mat K))) Qin) :
+    (∀ k c, k < n → (qrPivM sqrt gt abs n A Qin).2 k c = if c = pivotPerm gt abs n A k then 1 else 0)
+    ∧ IsPermBelow n (pivotPerm gt abs n A)
+    ∧ (∀ i j, j < i → (qrPivM sqrt gt abs n A Qin).1.R i j = 0)
+    ∧ (∀ k j, k < n → j < n →
+        ∑ p ∈ range n, (qrPivM sqrt gt abs n A Qin).1.Q k p * (qrPivM sqrt gt abs n A Qin).1.R p j
+          = A (pivotPerm gt abs n A k) j)
+    ∧ (∀ p q, p < n → q < n →
+        ∑ k ∈ range n, (qrPivM sqrt gt abs n A Qin).1.Q k p * (qrPivM sqrt gt abs n A Qin).1.Q k q = if p = q then 1 else 0) := by
+  have hperm := pivotPerm_isPerm gt abs n A
+  refine ⟨?_, hperm, fun i j h => qr_R_lower_zero sqrt n n _ Qin i j h, ?_,
+    fun p q hp hq => qr_orthonormal sqrt n n _ Qin hs p q hp hq⟩
+  · intro k c hk
+    show (permMatrix n (pivotPerm gt abs n A) : Mat K) k c = _
+    rw [permMatrix_get]
+    by_cases hc : c = pivotPerm gt abs n A k
+    · rw [if_pos ⟨hk, hc⟩, if_pos hc]
+    · rw [if_neg (fun h => hc h.2), if_neg hc]
+  · intro k j hk hj
+    have h := qr_reconstructs sqrt n n _ Qin hs k j hk hj
+    rw [applyPivot_get, if_pos hk, findOne_permMatrix n _ k hk (hperm.lt k hk)] at h
+    exact h
+
+/-! ### the hypotheses can be met (non-vacuity) -/
+
+/-- the 2×2 matrix `[[3,1],[4,2]]` -/
+def exA : Mat ℚ := Mat.ofFn (fun i j => if i = 0 then (if j = 0 then 3 else 1) else (if j = 0 then 4 else 2))
+/-- a "square root" that is exact on the two arguments met: `25` and `4/25` -/
+def exSqrt (x : ℚ) : ℚ := if x = 25 then 5 else 2 / 5
+
+theorem ex_normArg0 : normArg exSqrt 2 2 exA exA 0 = 25 := by
+  norm_num [normArg, stateAt, colNorm2, loop, List.range', initSt, exA, Mat.ofFn]
+
+theorem ex_normArg1 : normArg exSqrt 2 2 exA exA 1 = 4 / 25 := by
+  norm_num [normArg, stateAt, colNorm2, loop, List.range', initSt, exA, Mat.ofFn, outerStep, phase2, phase3, phase4,
+    set2, exSqrt]
+
+/-- `SqrtExact` holds for a concrete non-trivial instance: `[[3,1],[4,2]] = [[3/5,-4/5],[4/5,3/5]] * [[5,11/5],[0,2/5]]` -/
+example : SqrtExact exSqrt 2 2 exA exA := by
+  intro i hi
+  have : i = 0 ∨ i = 1 := by omega
+  rcases this with rfl | rfl
+  · rw [ex_normArg0]; norm_num [exSqrt]
+  · rw [ex_normArg1]; norm_num [exSqrt]
+
+/-- and the pivot of that instance is a genuine swap (`|4| > |3|`): the pivoted hypotheses are about a permuted matrix -/
+example : pivotPerm (fun a b : ℚ => decide (b < a)) (fun x => |x|) 2 exA 0 = 1 := by
+  norm_num [pivotPerm, argMax, loop, List.range', swapAt, exA, Mat.ofFn]
+
+
+/-! ### the family on which the model is tied to the code exactly -/
+
+/-- **On `A0 = Q0 * R0`** (`Q0` with orthonormal columns, `R0` upper triangular, `sqrt (R0 i i ²) = R0 i i ≠ 0` —
+    `QR.Fam`) the hypothesis `SqrtExact` holds, the `i`-th argument of `sqrt` is the square `R0 i i ²`, and the
+    dispatcher returns exactly `Q0` and `R0`.  Over `ℚ` with the exact rational root this is the reason why the
+    correspondence runs (harness/qr_rat.h) never meet a non-square and may demand `Q == Q0`, `R == R0`; it also shows
+    that `SqrtExact` is met for every size. -/
+theorem qr_on_family (sqrt : K → K) (M N : Nat) (A0 Qin Q0 R0 : Mat K) (hf : Fam M N A0 Q0 R0 sqrt) :
+    SqrtExact sqrt M N A0 Qin
+    ∧ (∀ i, i < N → normArg sqrt M N A0 Qin i = R0 i i * R0 i i)
+    ∧ (∀ k p, k < M → p < N → (qrMgsr sqrt M N A0 Qin).Q k p = Q0 k p)
+    ∧ (∀ p j, p < N → j < N → (qrMgsr sqrt M N A0 Qin).R p j = R0 p j) := by
+  obtain ⟨h1, h2⟩ := finv_stateAt sqrt M N A0 Qin Q0 R0 hf N (Nat.le_refl N)
+  refine ⟨?_, h2, fun k p hk hp => h1.fQ k p hk hp, fun p j hp hj => h1.fR p j hp hj⟩
+  intro i hi
+  rw [h2 i hi, (hf.root i hi).1]
+  exact ⟨rfl, (hf.root i hi).2⟩
+
+/-- the family is inhabited non-trivially: `[[3,1],[4,2]] = [[3/5,-4/5],[4/5,3/5]] * [[5,11/5],[0,2/5]]` -/
+example : Fam 2 2 exA
+    (Mat.ofFn (fun i j => if i = 0 then (if j = 0 then 3 / 5 else -4 / 5) else (if j = 0 then 4 / 5 else 3 / 5)))
+    (Mat.ofFn (fun i j => if i = 0 then (if j = 0 then 5 else 11 / 5) else (if j < i then 0 else 2 / 5)))
+    exSqrt where
+  orth := by
+    intro p q hp hq
+    have : (p = 0 ∨ p = 1) ∧ (q = 0 ∨ q = 1) := by omega
+    rcases this with ⟨rfl | rfl, rfl | rfl⟩ <;> norm_num [Mat.ofFn, sum_range_succ]
+  upper := by
+    intro p j h
+    by_cases hp : p = 0
+    · omega
+    · simp [Mat.ofFn, hp, h]
+  root := by
+    intro i hi
+    have : i = 0 ∨ i = 1 := by omega
+    rcases this with rfl | rfl <;> norm_num [Mat.ofFn, exSqrt]
+  prod := by
+    intro k j hk hj
+    have : (k = 0 ∨ k = 1) ∧ (j = 0 ∨ j = 1) := by omega
+    rcases this with ⟨rfl | rfl, rfl | rfl⟩ <;> norm_num [Mat.ofFn, exA, sum_range_succ]
 
 end Fastor.C13
